@@ -86,7 +86,10 @@ func (r *wRS) Register(_ context.Context, req channel.AdjudicatorReq, subs []cha
 	return nil
 }
 
-func (r *wRS) Subscribe(_ context.Context, id channel.ID) (channel.AdjudicatorSubscription, error) {
+func (r *wRS) Subscribe(ctx context.Context, id channel.ID) (channel.AdjudicatorSubscription, error) {
+	if err := ctx.Err(); err != nil { // as a real backend: no subscription for a caller whose context has ended
+		return nil, err
+	}
 	r.mu.Lock()
 	defer r.mu.Unlock()
 	s := &wSub{ev: make(chan channel.AdjudicatorEvent, 128), closed: make(chan struct{})}
@@ -202,6 +205,13 @@ func runWatcherBehaviour(t *testing.T, steps []wStep) (what string, at int, clas
 						res = "refused"
 					} else {
 						pubs[s], asubs[s] = pub, sub
+					}
+				case "StartSubFails":
+					s := a.Args[0].(string)
+					dead, cancelDead := context.WithCancel(ctx)
+					cancelDead()
+					if _, _, err := w.StartWatchingSubChannel(dead, wParams["P"].ID(), channel.SignedState{Params: wParams[s], State: wState(s, startVer, nil)}); err != nil {
+						res = "refused"
 					}
 				case "PublishSub":
 					s := a.Args[0].(string)
